@@ -14,66 +14,66 @@ def add(pid, category, technique, text, note, ref):
 
 
 add("C03", "exploration", "runtime postconditions on the real operator builders + reference-assembly differential",
-    "Nine identities (L = div grad, area-weighted divergence sums to zero, boundary-flux integral, symmetry/NSD, null space = constants, Hermiticity for random A, gradient exact on linear functions, entry-wise equality with an independent per-edge assembly) are asserted on the matrices returned by the real builders for every mesh of a generated zoo (device meshes with holes/smoothing, hexagonal, random Delaunay, annulus, explicit meshes with arbitrary positive areas/dual lengths over six decades). Held on the meshes explored; sampling, not proof.",
+    "Nine identities, also after localised changes of the potential, on the same Mesh object after its data changed, on exact lattices where the LU factor is singular, and on one mesh with > 2^15 edges (L = div grad, area-weighted divergence sums to zero, boundary-flux integral, symmetry/NSD, null space = constants, Hermiticity for random A, gradient exact on linear functions, entry-wise equality with an independent per-edge assembly) are asserted on the matrices returned by the real builders for every mesh of a generated zoo (device meshes with holes/smoothing, hexagonal, random Delaunay, annulus, explicit meshes with arbitrary positive areas/dual lengths over six decades). Held on the meshes explored; sampling, not proof.",
     "numpy/scipy linear algebra; the mesh's own geometry arrays define the operators here (their correctness is C07)", "DESIGN.md 4/C03")
 
 add("C01", "exploration", "online charge-balance monitor at every TDGLSolver.update return + offline check of every HDF5 frame, CODATA-based expected fluxes",
-    "Per-cell net outflow (from edge currents and dual lengths) is compared at every update return and on every saved frame with the requested terminal current's share of that cell, over generated devices (2-4 terminals, holes, units, fields, constant/decimal/time-dependent currents, screening, adaptive). Also: every generated balanced assignment must be accepted. Held on the runs explored.",
+    "Per-cell net outflow (from edge currents and dual lengths) is compared at every update return and on every saved frame with the requested terminal current's share of that cell, over generated devices (2-4 terminals, holes, units, fields, constant/decimal/time-dependent currents, screening, adaptive). Also: every generated balanced assignment must be accepted. Workloads include weak bias (1e-9 of the natural scale), staircase / switched currents (terminals unnamed while they carry nothing), callables of every kind (function, partial, bound method, object), one solver solved twice, devices used before. Held on the runs explored.",
     "terminal edge membership and dual lengths taken from the mesh (checked in C07); gate 1e-8 relative", "DESIGN.md 4/C01")
 add("C02", "exploration", "long-double reference oracle on every solve_for_psi_squared return (generated inputs + in situ)",
     "The documented static method is called on ~1e6 generated site-cases spanning the input space (exact zeros, tiny/large |psi|, gamma=0, ten decades of dt, random sparse and mesh Laplacians) and on every call made by full simulations; a long-double evaluation of the documentation's equations decides answered/refused, the quadratic's backward error, psi'+z|psi'|^2=w, |psi'|^2 consistency and the branch. In situ the arguments of every call are tied to the state handed to update() (psi^n, |psi^n|^2, mu^n bit-equal / 1e-13) and the step reported by update() to the accepted solve.",
     "80-bit long double as reference; decision band 1e-9 of the discriminant's terms; overflowing inputs skipped", "DESIGN.md 4/C02")
 add("C05", "exploration", "reference model (executable run specification) over recorded update/save traces, checked on the HDF5 file and the loaded Solution",
-    "From the dt sequence actually returned by update the model derives the final step, the frame set, frame times and per-step records; every frame's datasets must hash-equal the state after exactly s updates, records must appear once and in order, Solution.times/dynamics must agree. Thorough enumerates k=1..N+2, N=0..12 x fixed/adaptive(with retries) x thermalisation x probes (exhaustive within that bound).",
+    "From the dt sequence actually returned by update the model derives the final step, the frame set, frame times and per-step records; every frame's datasets must hash-equal the state after exactly s updates, records must appear once and in order, Solution.times/dynamics must agree, also after selecting another frame (solve_step / from_hdf5(solve_step=)); steps down to 1e-12. Thorough enumerates k=1..N+2, N=0..12 x fixed/adaptive(with retries) x thermalisation x probes (exhaustive within that bound).",
     "hooks observe the values returned by TDGLSolver.update; sha256 hashes of array bytes", "DESIGN.md 4/C05")
 add("C06", "exploration", "online pin monitor (exact value on terminal sites, identity-row structure, free-update oracle on all other sites) + differential run",
-    "At every update return and saved frame psi on terminal sites must equal terminal_psi exactly, pinned Laplacian rows must be exactly the terminal sites, and every non-pinned site must follow the free TDGL update computed by the long-double oracle with an independently rebuilt Laplacian; unpinned terminals with zero current must reproduce the terminal-free run bit for bit. Histories: runs continued from seeds holding other terminal values; one Device solved, moved in place (translate / translation()), solved again and moved back, terminal sites re-derived from the polygons' current vertices each time.",
+    "At every update return and saved frame psi on terminal sites must equal terminal_psi exactly, pinned Laplacian rows must be exactly the terminal sites, and every non-pinned site must follow the free TDGL update computed by the long-double oracle with an independently rebuilt Laplacian; unpinned terminals with zero current must reproduce the terminal-free run bit for bit. Histories: runs continued from seeds holding other terminal values; one Device solved, moved in place (translate / translation()), solved again and moved back, terminal sites re-derived from the polygons' current vertices each time; Corbino geometry (terminal on a hole's rim); re-meshed devices; one options object used on two devices (solve() may not change the caller's options).",
     "terminal site membership from Device.terminal_info() (C07)", "DESIGN.md 4/C06")
 add("C10", "exploration", "history monitor: live operators vs fresh rebuild vs reference assembly after every set_link_exponents; in-situ link-variable monitor during runs",
-    "Sequences (length 1..6) of vector potentials over {0, A1, A2, 5A1, repeats} are applied to one live MeshOperators for four pin sets; after every call gradient and Laplacian must equal a fresh instance and the reference assembly entry-wise with the same sparsity pattern. During simulations (fast/slow ramps, piecewise, oscillating, screening) the link variables in the operators in use are compared at every solve with the potential the harness evaluates itself.",
+    "Sequences (length 1..6) of vector potentials over {0, A1, A2, 5A1, repeats} are applied to one live MeshOperators for four pin sets; after every call gradient and Laplacian must equal a fresh instance and the reference assembly entry-wise with the same sparsity pattern. Meshes with exactly zero dual edge lengths are included. During simulations (second solve() on one solver, devices used before, fast/slow ramps, piecewise, oscillating, screening) the link variables in the operators in use are compared at every solve with the potential the harness evaluates itself.",
     "fresh MeshOperators build defines 'from scratch' (its correctness is C03); in-situ tolerance admits the solver's documented allclose skip", "DESIGN.md 4/C10")
 add("C12", "exploration", "reference model of the adaptive time-step rule over per-update traces (attempt sequences, proposals, exhaustion)",
-    "Per update: attempts form d, d*m, ... with one factor per refusal, returned dt = last attempt = recorded dt, 0 < dt <= dt_max, fixed-step runs never change dt; after the warm-up window the proposal equals min((dt + dt_init/delta)/2, dt_max) with delta recomputed by the monitor; retry exhaustion raises (out of solve() itself, to the caller) and records nothing more. Workloads force thousands of retries and several exhaustions.",
+    "Per update: attempts form d, d*m, ... with one factor per refusal, returned dt = last attempt = recorded dt, 0 < dt <= dt_max, fixed-step runs never change dt; after the warm-up window the proposal equals min((dt + dt_init/delta)/2, dt_max) with delta recomputed by the monitor; retry exhaustion raises (out of solve() itself, to the caller) and records nothing more. Workloads force thousands of retries and several exhaustions; dt_init == dt_max, windows > 1000 steps, non-zero pinned terminals, screening with unclipped proposals, re-used options objects, devices used before.",
     "delta recomputed from psi passed to / returned by update", "DESIGN.md 4/C12")
 add("C13", "exploration", "online self-consistency monitor on every get_induced_vector_potential call with an independent SI direct sum; kernel differential",
-    "Every screening iteration: monitor recomputes (mu0/4pi) sum K a/r (own site averaging, CODATA scales) and the relative mismatch; reported error must match, accepted steps must be below tolerance, stored potential must reproduce the sum from stored currents (<=5x tol), non-convergence must raise with no later frame, screening off gives identically zero (also when started from a seed computed with screening). Devices in um/nm/mm, ordinary and very weak (1e-8 Bc2) fields. Numba kernel compared with a numpy double sum on random inputs.",
+    "Every screening iteration: monitor recomputes (mu0/4pi) sum K a/r (own site averaging, CODATA scales) and the relative mismatch; reported error must match, accepted steps must be below tolerance, stored potential must reproduce the sum from stored currents (<=5x tol), non-convergence must raise with no later frame, screening off gives identically zero (also when started from a seed computed with screening). Devices in um/nm/mm, ordinary and very weak (1e-8 Bc2) fields. Plain fixed-point iteration, second-generation runs with re-loaded options, seed immutability. Numba kernel compared with a numpy double sum on random inputs incl. tiny numbers and sets far from the origin.",
     "site-current convention of Solution.current_density; CODATA 2018", "DESIGN.md 4/C13")
 add("C16", "exploration", "differential evaluation of enumerated expression trees against a vt-side tuple-tree evaluator",
-    "~9k (quick) / ~100k (thorough) expression trees over five operators and five leaf kinds, both operand orders, are built with tdgl.Parameter arithmetic and compared with a reference evaluator on scalar/array arguments with and without z and t (including operand-error propagation), plus time_dependent flag, structural equality, cache clearing, pickle round trip; composites are handed to tdgl.solve and must reproduce the run of the equivalent plain Parameter.",
+    "~9k (quick) / ~100k (thorough) expression trees over five operators and five leaf kinds, both operand orders, are built with tdgl.Parameter arithmetic and compared with a reference evaluator on scalar/array arguments with and without z and t (including operand-error propagation), plus time_dependent flag, structural equality, cache clearing, pickle round trip; composites are handed to tdgl.solve and must reproduce the run of the equivalent plain Parameter; composites over closures / lambdas (same-factory leaves, serialisation, equality).",
     "raw leaf functions and Python's operator module define pointwise arithmetic", "DESIGN.md 4/C16")
 add("C17", "exploration", "online stationarity monitor on undriven runs, verdict inside the harness-computed explicit stability bound",
-    "psi=1, mu=0 with no drive: at every update return |psi-1| <= 1e-12 and mu, currents, induced potential exactly zero, adaptive dt grows to dt_max, on irregular/smoothed/holed meshes with unpinned terminals, gamma/u grid, screening. dt_max is drawn inside the mesh's explicit stability bound for the verdict; runs above the bound are classified by mechanism (known finding).",
+    "psi=1, mu=0 with no drive: at every update return |psi-1| <= 1e-12 and mu, currents, induced potential exactly zero, adaptive dt grows to dt_max, on irregular/smoothed/holed meshes with unpinned terminals, gamma/u grid, screening. Also terminals pinned at the uniform value, fixed steps below dt_max, histories (device solved pinned before, re-used options object, seed left by an adaptive run). dt_max is drawn inside the mesh's explicit stability bound for the verdict; runs above the bound are classified by mechanism (known finding).",
     "stability bound from a dense eigenvalue of the reference Laplacian", "DESIGN.md 4/C17")
 
 add("C04", "exploration", "covariance postconditions on the real operator builders / live MeshOperators + differential pairs of gauge-shifted runs",
-    "Operator level: for random chi, A, psi the built covariant Laplacian/gradient must transform covariantly and the supercurrent must be unchanged, through fresh builds and in-place refreshes (incl. pure-gauge vs exactly-zero potentials, pinned rows). Run level: pairs of full runs whose applied potential differs by a constant vector (0.3-30x max|A|), partner started from the gauge image; every update return compared modulo gauge/global phase and mu constant; dt sequences must coincide.",
+    "Operator level: for random chi, A, psi the built covariant Laplacian/gradient must transform covariantly and the supercurrent must be unchanged, through fresh builds and in-place refreshes (incl. pure-gauge vs exactly-zero potentials, pinned rows). Run level: pairs of full runs whose applied potential differs by a constant vector (0.3-30x max|A|), partner started from the gauge image; every update return compared modulo gauge/global phase and mu constant; dt sequences must coincide. Variants: slowly creeping field with offsets up to 3000x max|A|, device re-loaded from a file, pairs that continue a first part from a seed solution (partner seeded with the gauge image).",
     "runs are kept inside the explicit scheme's stability bound (harness-computed) so that rounding is not amplified; gate 1e-7 (10x tolerance with screening)", "DESIGN.md 4/C04")
 add("C07", "exploration", "geometric postconditions on Device.make_mesh against an independent clipped-Voronoi / winding-number oracle",
-    "Every triangle (orientation, tiling area, containment), boundary site/edge (on outlines, exactly), Euler characteristic, edge vectors/lengths/centres, and - where the triangulation is locally Delaunay with unencroached boundary and an unambiguous one-piece cell - every cell area and dual edge length against half-plane-clipped Voronoi cells intersected with the domain polygon; terminal edges/sites/length against the boundary covered by the terminal polygon. Also after re-meshing and in-place translation of the same Device.",
+    "Every triangle (orientation, tiling area, containment), boundary site/edge (on outlines, exactly), Euler characteristic, edge vectors/lengths/centres, and - where the triangulation is locally Delaunay with unencroached boundary and an unambiguous one-piece cell - every cell area and dual edge length against half-plane-clipped Voronoi cells intersected with the domain polygon; terminal edges/sites/length against the boundary covered by the terminal polygon. Also after re-meshing, in-place translation, hdf5 round trip and smoothing of a copy; devices up to 3e5 coherence lengths from the origin (oracle in centroid-relative coordinates, conditioning-aware gates); second-hand hole polygons (mesh=False).",
     "shapely for polygon intersection/area/length; skipped (ineligible) sites counted with reasons", "DESIGN.md 4/C07")
 add("C08", "exploration", "differential runs of one physical problem stated in two unit systems + CODATA flux-quantum identity per triangle",
-    "The same physical problem (device, field, currents) is restated in another unit system on the same dimensionless mesh and run; dimensionless states at every update, dt sequences, physical current density, vector potential and field at fixed physical points must agree; A_scale/Bc2/A0/K0 are compared with CODATA-based values and the link phase around every mesh triangle must equal 2 pi flux / Phi_0.",
+    "The same physical problem (device, field, currents) is restated in another unit system on the same dimensionless mesh and run; dimensionless states at every update, dt sequences, physical current density, vector potential and field at fixed physical points must agree; A_scale/Bc2/A0/K0 are compared with CODATA-based values and the link phase around every mesh triangle must equal 2 pi flux / Phi_0. Pairs are also moved in place after meshing, have z0 != 0, terminals stated in mm, loop drives in other current units; asking for a field twice may not change it or the currents.",
     "runs kept inside the stability bound; CODATA 2018; gate 1e-7", "DESIGN.md 4/C08")
 add("C09", "exploration", "differential execution across schedules: fresh processes x thread counts x hash seeds x output locations, digest comparison",
-    "Each configuration runs in fresh processes under NUMBA_NUM_THREADS 1..16, BLAS threads, PYTHONHASHSEED 0/1/random, file/temp output, other cwd, repeated; sha256 digests of mesh arrays, every update state, recorded frames/attrs/records and dt sequences must all coincide. Digests also cover the returned Solution; output location may be an already occupied file name. In-process: NaN-poisoned kernel buffer fully overwritten; global numpy RNG untouched; the same seeded simulation run twice from one in-memory seed and once from the re-loaded seed must coincide and leave the seed untouched.",
+    "Each configuration runs in fresh processes under NUMBA_NUM_THREADS 1..16, BLAS threads, PYTHONHASHSEED 0/1/random, file/temp output, other cwd, repeated; sha256 digests of mesh arrays, every update state, recorded frames/attrs/records and dt sequences must all coincide. Digests also cover the returned Solution; output location may be an already occupied file name. In-process: NaN-poisoned kernel buffer fully overwritten; global numpy RNG untouched; the same seeded simulation run twice from one in-memory seed and once from the re-loaded seed must coincide and leave the seed untouched; X on a Device (or with an options object) that was used before must equal X on freshly built ones.",
     "one machine / one numba build; a race is visible only as a differing result", "DESIGN.md 4/C09")
 add("C11", "exploration", "differential runs across recording configurations and across every split point of a resumed run",
-    "One physics input under 7-9 recording configurations (save_every, file/temp, probes, progress reporting): frames with the same step label bit-identical, update-state and dt sequences identical. Fixed-step static runs split at N1+N2 and resumed from the reloaded Solution must reproduce the uninterrupted frames bit for bit, with and without screening.",
+    "One physics input under 7-9 recording configurations (save_every, file/temp, probes, progress reporting): frames with the same step label bit-identical, update-state and dt sequences identical. Fixed-step static runs split at N1+N2 and resumed from the reloaded Solution must reproduce the uninterrupted frames bit for bit, with and without screening; per-step records equal across recording configurations; the seed is looked at (all plots / derived quantities) before the resume and must be unchanged.",
     "sha256 of dataset bytes", "DESIGN.md 4/C11")
 add("C14", "exploration", "round-trip differential on objects (hdf5, pickle, copy) with field-by-field comparison and behavioural equivalence",
-    "Devices (hdf5 with/without mesh, pickle, copy; mesh full/compressed/from_triangulation), Solutions (in place / copy; every option incl. None-valued; every recorded step; dynamics; drives evaluated at random points/times) and composite parameters carried through a Solution file are written and read back with the real functions and compared bit-wise; reloaded devices must solve identically.",
+    "Devices (hdf5 with/without mesh, pickle, copy; mesh full/compressed/from_triangulation), Solutions (in place / copy; every option incl. None-valued; every recorded step; dynamics; drives evaluated at random points/times) and composite parameters carried through a Solution file are written and read back with the real functions and compared bit-wise; reloaded devices must solve identically; memory-only solutions incl. a second generation; relative output paths; Constant leaves.",
     "h5py/pickle correct; time_created excluded", "DESIGN.md 4/C14")
 add("C15", "fault_enumeration", "fault injection at every (stage, step, hook point) incl. mid-frame-writer and line-level sys.monitoring failpoints, audited from outside",
-    "For every step 0..N and both stages RuntimeError/KeyboardInterrupt are injected at update entry/exit, save entry/middle(each dataset)/exit; explicit path or temp; pre-existing files; pause answers. Audit: output reopens r and r+, frames == completed saves and pass the C05 checker as a prefix, no .tmp/tempdir/stray file, pre-existing files byte-identical, error propagates / cancellation returns a usable partial solution. Thorough adds statement-level failpoints in _run_stage, save_time_step, __enter__, close, _create_output_file.",
+    "For every step 0..N and both stages RuntimeError/KeyboardInterrupt are injected at update entry/exit, save entry/middle(each dataset)/exit; explicit path or temp; pre-existing files; pause answers. Audit: output reopens r and r+, frames == completed saves and pass the C05 checker as a prefix, no .tmp/tempdir/stray file, pre-existing files byte-identical, error propagates / cancellation returns a usable partial solution. Faults in the MIDDLE of update() (n-th observables / kernel call) with screening; seven sets of pre-existing files. Thorough adds statement-level failpoints in _run_stage, save_time_step, __enter__, close, _create_output_file.",
     "faults inside h5py's C code not modelled; exhaustive within the listed (case, step, point, exception) grid", "DESIGN.md 4/C15")
 add("C18", "exploration", "postconditions on polygon/device operations against a winding-number membership oracle, shoelace areas and byte-level aliasing checks",
-    "Random boxes/circles/ellipses (any vertex count, orientation, centre, scale over four decades): stored points closed+CCW, set operations (methods, operators, classmethods) vs membership of operands at probe points away from outlines, inclusion-exclusion, affine transforms (areas, mapped points, mapped vertices, reflections), inplace/non-inplace/copy aliasing, Device.contains_points vs film-and-not-holes, Device-level transforms.",
+    "Random boxes/circles/ellipses (any vertex count, orientation, centre, scale over four decades): stored points closed+CCW, set operations (methods, operators, classmethods) vs membership of operands at probe points away from outlines, inclusion-exclusion, affine transforms (areas, mapped points, mapped vertices, reflections), inplace/non-inplace/copy aliasing (incl. the layer), Device.contains_points vs film-and-not-holes, Device-level transforms, translation() left by an exception, meshed devices moved in place, finely sampled outlines far from the origin.",
     "probe points closer than 1e-6 (relative) to an outline are not judged", "DESIGN.md 4/C18")
 add("C19", "fault_enumeration", "negative enumeration of ill-posed inputs with filesystem / temp-dir / hook watch",
-    "Each member of 45 ill-posed classes (magnitudes from gross to 1e-6; with/without output path) must raise, and afterwards: output directory empty, no TemporaryDirectory created, DataHandler never entered, update never called.",
+    "Each member of 56 ill-posed classes (incl. options edited after construction, a terminal moved off the boundary after a first solve, seeds from devices with fewer terminals / holes) (magnitudes from gross to 1e-6; with/without output path) must raise, and afterwards: output directory empty, no TemporaryDirectory created, DataHandler never entered, update never called.",
     "callables unbalanced in a window < 25% are observations only", "DESIGN.md 4/C19")
 add("C20", "exploration", "differential against direct SI sums and loop quadrature; Solution-level parts vs direct sums from its own currents",
-    "biot_savart_2d (vector/scalar, units, linearity, additivity over sources) vs a numpy Biot-Savart sum; current_loop_vector_potential vs spectral quadrature incl. near/on-axis and small-elliptic-parameter points judged relative to |A| there; integer- vs float-typed evaluation points; convert_field round trips and B = mu0 H; on solved devices field_at_position / vector_potential_at_position: total = sum of parts, parts = direct sums from the solution's own sheet currents and areas in several units, applied part = the user's parameter.",
+    "biot_savart_2d (vector/scalar, units, linearity, additivity over sources) vs a numpy Biot-Savart sum; current_loop_vector_potential vs spectral quadrature incl. near/on-axis and small-elliptic-parameter points judged relative to |A| there; integer- vs float-typed evaluation points; one evaluation point; the same lateral positions at other heights; weak drives in large units; loop drives; convert_field round trips and B = mu0 H; on solved devices field_at_position / vector_potential_at_position: total = sum of parts, parts = direct sums from the solution's own sheet currents and areas in several units, applied part = the user's parameter.",
     "CODATA 2018 mu0, gate 1e-7", "DESIGN.md 4/C20")
 
 NOT_APPLICABLE = []
